@@ -46,6 +46,7 @@ pub fn run_case(input: &Input) -> Result<(), String> {
         c if c.starts_with("seq_") => seq::run(&i),
         c if c.starts_with("dec_") => decode::run(&i),
         "proto_zoo" => proto::run(&i),
+        "proto_dec" => proto::run_dec(&i),
         "zoo_setorder" => zoo::run_setorder(&i),
         "zoo_types" => zoo::run_zoo(&i),
         "front_resolve" => front::run_resolve(&i),
@@ -123,6 +124,7 @@ fn main() {
                     "seq" => seq::search(&mut rng, budget, &mut try_one),
                     "decode" => decode::search(&mut rng, budget * 4, &mut try_one),
                     "proto" => proto::search(budget, &mut try_one),
+                    "protodec" => proto::search_dec(seed, budget, &mut try_one),
                     "setorder" => zoo::search_setorder(&mut try_one),
                     "zoo" => zoo::search_zoo(budget, &mut try_one),
                     "resolve" => front::search_resolve(&mut try_one),
